@@ -526,6 +526,7 @@ def _parse_schema(
                 and resolved_schema.name  # Resolved schema has a real name
                 and resolved_schema.name != schema_name  # Different from synthetic name
                 and resolved_schema.name in context.parsed_schemas
+                and schema_name not in context.raw_spec_schemas  # Declared aliases must stay resolvable by name
             ):  # Already exists in context
                 # This is a pure reference to an existing schema, don't create duplicate
                 pass
